@@ -1227,7 +1227,7 @@ func (w *World) relaySocketOrigins(v ssa.Value, d int, seen map[ssa.Value]bool, 
 // retries collide with them, and the search reports "no port" while ports are free.
 func ruleProbeReleasedPerIteration(c *Ctx, rule string) {
 	w := c.W
-	c.Rule(rule, "in every function of package allocation that calls Manager.allocatePacketConn / allocateListener inside a loop, no defer statement inside that loop closes the socket obtained: the release is a plain call in the iteration", 1)
+	c.Rule(rule, "in every function of package allocation that calls Manager.allocatePacketConn / allocateListener inside a loop, no defer statement inside that loop closes the socket obtained: the release is a plain call in the iteration (or the iteration is a helper call of its own, whose deferred calls run at its return)", 1)
 	gens := map[*types.Var]bool{
 		w.Field("allocation", "Manager", "allocatePacketConn"): true,
 		w.Field("allocation", "Manager", "allocateListener"):   true,
@@ -1247,7 +1247,35 @@ func ruleProbeReleasedPerIteration(c *Ctx, rule string) {
 				return
 			}
 			if !instrReaches(in, in) {
-				return // not in a loop
+				// not in a loop of its own function: a probe helper called from a loop? its
+				// deferred calls run when the helper returns, i.e. once per iteration
+				var inLoop func(f *ssa.Function, d int) ssa.CallInstruction
+				inLoop = func(f *ssa.Function, d int) ssa.CallInstruction {
+					if d > 2 {
+						return nil
+					}
+					for _, cs := range w.callsTo(f) {
+						if _, isGo := cs.(*ssa.Go); isGo {
+							continue
+						}
+						if _, isD := cs.(*ssa.Defer); isD {
+							continue
+						}
+						if instrReaches(cs, cs) {
+							return cs
+						}
+						if up := inLoop(cs.Parent(), d+1); up != nil {
+							return up
+						}
+					}
+					return nil
+				}
+				if cs := inLoop(fn, 0); cs != nil {
+					n++
+					c.Anchor(rule, fname(fn))
+					c.OK(rule, fname(fn), "probe socket", w.instrPos(in), "bound in a helper that the loop at "+w.instrPos(cs)+" calls once per iteration: whatever the helper defers runs when that call returns")
+				}
+				return
 			}
 			n++
 			c.Anchor(rule, fname(fn))
